@@ -21,6 +21,7 @@ import (
 
 type jumpTok struct {
 	ID    int
+	Ord   int // ordinal among the jumps emitted on this path
 	Op    string
 	Depth *Lin
 }
@@ -39,6 +40,7 @@ type emPay struct {
 	B         int
 	scopes    []*Lin
 	jumps     []jumpTok
+	njumps    int
 	dead      bool
 	pendOp    string
 	pendShape string // operands still to be emitted for pendOp
@@ -340,10 +342,26 @@ func (m *emitModel) hooks() Hooks {
 		}
 		if found {
 			st.Env[obj] = tagV("local", "slot of a declared, initialised local (resolveLocal >= 0)")
+			pay(st).events = append(pay(st).events, "local:found")
 		} else {
 			st.Env[obj] = tagV("nolocal", "-1")
+			pay(st).events = append(pay(st).events, "local:notfound")
 		}
 		return true
+	}
+	h.Decision = func(in *Interp, st *State, cond ast.Expr, v Value, branch bool) {
+		be, ok := stripParens(cond).(*ast.BinaryExpr)
+		if !ok {
+			if id, isID := stripParens(cond).(*ast.Ident); isID {
+				pay(st).events = append(pay(st).events, fmt.Sprintf("%s=%v", id.Name, branch))
+			}
+			return
+		}
+		if c.fieldPath(be.X) == "<parser>.scope.depth" {
+			if k, isC := c.intConst(be.Y); isC {
+				pay(st).events = append(pay(st).events, fmt.Sprintf("depth %s %d=%v", be.Op, k, branch))
+			}
+		}
 	}
 	h.Loop = func(in *Interp, st *State, loop ast.Stmt, body func(*State) []*State) ([]*State, bool) {
 		return m.loop(in, st, loop, body), true
@@ -422,9 +440,10 @@ func (m *emitModel) hooks() Hooks {
 			m.emitOp(p, call, args[0])
 			m.operand(p, call, "H", "placeholder")
 			m.nextJump++
-			t := jumpTok{ID: m.nextJump, Op: p.lastOp, Depth: p.d}
+			p.njumps++
+			t := jumpTok{ID: m.nextJump, Ord: p.njumps, Op: p.lastOp, Depth: p.d}
 			p.jumps = append(p.jumps, t)
-			p.trace = append(p.trace, fmt.Sprintf("jump#%d", len(p.jumps)))
+			p.trace = append(p.trace, fmt.Sprintf("jump#%d", t.Ord))
 			if p.lastOp == "opJUMP" {
 				p.dead = true
 			}
@@ -456,7 +475,7 @@ func (m *emitModel) hooks() Hooks {
 			} else if !p.d.equal(t.Depth) {
 				p.problems = append(p.problems, fmt.Sprintf("%s: stack depth at the jump target (%s) differs from the depth at the jump (%s)", c.pos(call.Pos()), p.d, t.Depth))
 			}
-			p.trace = append(p.trace, "patch")
+			p.trace = append(p.trace, fmt.Sprintf("patch#%d", t.Ord))
 			return one(st, unknownV()), true
 		case role == "emitUvarint":
 			prov := "unknown"
@@ -516,6 +535,7 @@ func (m *emitModel) hooks() Hooks {
 			return one(st, unknownV()), true
 		case role == "markInit":
 			p.events = append(p.events, "markInit")
+			p.trace = append(p.trace, "init")
 			return one(st, unknownV()), true
 		case role == "resolveLocal":
 			return one(st, tagV("localidx", "result of resolveLocal, not yet compared with 0")), true
